@@ -702,6 +702,9 @@ pub(crate) struct Slave {
     pub(crate) present: bool,
     /// transient: reports STATION_NOT_READY for that many more diagnostics replies
     pub(crate) not_ready: u8,
+    /// data-exchange replies answered since the configuration was accepted (a faulty device answers the
+    /// first one with a payload of the wrong length although status and SAPs are fine)
+    pub(crate) dx_since_cfg: u32,
 }
 
 impl Slave {
@@ -720,6 +723,7 @@ impl Slave {
             counter: 0,
             present: true,
             not_ready: 0,
+            dx_since_cfg: 0,
         }
     }
     pub(crate) fn power_cycle(&mut self) {
@@ -785,6 +789,7 @@ impl Slave {
                 if self.state == SState::WaitCfg {
                     if req.pdu == self.cfg {
                         self.state = SState::DataExch;
+                        self.dx_since_cfg = 0;
                     } else {
                         self.cfg_fault = true;
                         self.state = SState::WaitPrm;
@@ -801,7 +806,14 @@ impl Slave {
                     return Some("sc".to_string());
                 }
                 self.counter = self.counter.wrapping_add(1);
-                let data: Vec<u8> = (0..self.ilen).map(|i| self.counter.wrapping_add(i as u8) ^ rng.u8()).collect();
+                self.dx_since_cfg += 1;
+                // one device in six answers its very first data exchange with a payload one byte too long or short
+                let n = if self.dx_since_cfg == 1 && self.ilen > 0 && (self.addr as u32 + self.ident as u32) % 6 == 0 {
+                    if rng.bool() { self.ilen + 1 } else { self.ilen - 1 }
+                } else {
+                    self.ilen
+                };
+                let data: Vec<u8> = (0..n).map(|i| self.counter.wrapping_add(i as u8) ^ rng.u8()).collect();
                 let status = if self.diag_pending { 10 } else { 8 };
                 Some(format!("data {own} {a} - - r.0.{status} {}", hex(&data)))
             }
